@@ -48,6 +48,7 @@ Inductive op :=
 | OSeries (f : nat) (name : str) (i : Z)
 | OPlot (bar : bool) (f : nat) (x y : str) (path_ok render_ok : bool)
 | OGroupbyOther (f : nat) (accepted : bool)
+| OIoFail (f : nat) (reported : bool)    (* an export of frame f to a sink that fails; reported: the call returned an error *)
 (* in-place edits *)
 | OAppendRow (f : nat) (r : rowmap)
 | ODropRow (f : nat) (i : Z)
@@ -124,6 +125,7 @@ Definition step (O : oracles) (p : pool) (o : op) : out val * pool :=
   | OSeries i name n => observe p (with_frame p i (fun f => lift (fun nc => VCells (fst nc) (snd nc)) (op_series f name n)))
   | OPlot bar i x y pk rk => observe p (with_frame p i (fun f => lift (fun _ => VNone) (op_plot bar f x y pk rk)))
   | OGroupbyOther i acc => observe p (with_frame p i (fun _ => lift VGroups (op_groupby_other acc)))
+  | OIoFail i reported => observe p (with_frame p i (fun _ => if reported then Err else Ok VNone))
   | OAppendRow i r => edit p i (with_frame p i (fun f => Ok (op_append_row f r)))
   | ODropRow i n => edit p i (with_frame p i (fun f => op_droprow f n))
   | OFillNa i v => edit p i (with_frame p i (fun f => Ok (op_fillna f v)))
